@@ -51,8 +51,10 @@ func main() {
 	bounds := flag.String("bounds", "", "name=value,... overrides of vBound")
 	list := flag.Bool("list", false, "list harnesses")
 	extra := flag.String("pkgs", "", "extra package patterns to load, comma separated")
+	inv := flag.Bool("inv", false, "also assert inverse-function axioms for injective UFs (default: structural rewriting of UF equalities only)")
 	flag.BoolVar(&slowLog, "slowlog", false, "report slow solver queries")
 	flag.Parse()
+	noInverseAxioms = !*inv
 
 	for _, kv := range strings.Split(*bounds, ",") {
 		if i := strings.IndexByte(kv, '='); i > 0 {
